@@ -201,18 +201,24 @@ class NLinear(nnx.Module):
     return (x @ self.w.value) * scale + self.b.value
 
 
+class Peak(nnx.BatchStat):
+  """A Variable type that subclasses another one in use (own collection)."""
+
+
 class NNorm(nnx.Module):
   def __init__(self, d, rngs):
     self.lin = NLinear(d, d, rngs)
     self.mean = nnx.BatchStat(jnp.zeros((d,)))
     self.count = Count(jnp.zeros((), jnp.int32))
+    self.peak = Peak(jnp.zeros(()))
 
   def __call__(self, x, train=True):
     y = self.lin(x)
     if train:
       self.mean.value = 0.9 * self.mean.value + 0.1 * y.mean(axis=0)
       self.count.value = self.count.value + 1
-    return y - self.mean.value
+      self.peak.value = jnp.maximum(self.peak.value, jnp.max(jnp.abs(y)))
+    return y - self.mean.value + 0.01 * self.peak.value
 
 
 class NDrop(nnx.Module):
@@ -244,7 +250,9 @@ class NSelfSeeded(nnx.Module):
             'cls': st.sampled_from(['linear', 'norm', 'drop', 'selfseed']),
             'd': st.integers(1, 3), 'calls': st.integers(1, 3),
             'mutable': st.sampled_from([[], ['batch_stats'],
-                                        ['batch_stats', 'Count']]),
+                                        ['batch_stats', 'Count'], ['Peak'],
+                                        ['batch_stats', 'Peak'],
+                                        ['Count', 'Peak']]),
             'nested': st.booleans(), 'seed': st.integers(0, 2**16)}),
         quick=150, thorough=5000, quick_shards=10, thorough_shards=16,
         shrink=False,
@@ -283,7 +291,7 @@ def to_linen(case, ctx):
     V = unfreeze(lm.init(keys, x))
   top = V if not case['nested'] else {c: V[c]['wrapped'] for c in V}
   expect_cols = {'linear': {'params', 'nnx'},
-                 'norm': {'params', 'batch_stats', 'Count', 'nnx'},
+                 'norm': {'params', 'batch_stats', 'Count', 'Peak', 'nnx'},
                  'drop': {'params', 'nnx'},
                  'selfseed': {'params', 'nnx'}}[case['cls']]
   got_cols = {c for c in top if L.flat(top[c]) or c == 'nnx'}
@@ -353,7 +361,16 @@ def to_linen(case, ctx):
             f'{i}: ToLinen output differs from the NNX module with the same '
             'state')
     upd = unfreeze(upd)
+    require(set(upd) == set(mutable), lambda: f'call {i}: apply returned '
+            f'collections {sorted(upd)}, mutable {sorted(mutable)}')
     for c in mutable:
+      # every Variable stays in the collection named after its own type
+      old_paths = set(L.flat(V[c] if not case['nested'] else V[c]['wrapped']))
+      new_paths = set(L.flat(upd[c] if not case['nested']
+                             else upd[c]['wrapped']))
+      require(old_paths == new_paths, lambda: f'call {i}: collection {c!r} '
+              f'returned by apply holds {sorted(new_paths)}, it held '
+              f'{sorted(old_paths)}')
       V[c] = upd[c]
     top = V if not case['nested'] else {c: V[c]['wrapped'] for c in V}
     for p, v in statelib.to_flat_state(nnx.state(ref)):
